@@ -72,6 +72,16 @@ Theorem used_packs_verified :
 Proof. exact used_packs_verified_lemma. Qed.
 Print Assumptions used_packs_verified.
 
+(* "Correctly" includes "completely": under the conclusion of the soundness theorem every read
+   that restore/dump performs below the snapshot root succeeds. *)
+Theorem correct_implies_complete :
+  forall (B : Type) (hash : B -> id) (blen : B -> N) (parse : B -> option tree)
+         (st : state B) (sel : selector) (fuel : nat) (strict : bool) (i : id),
+    correct B hash blen parse st sel strict fuel i = Some true ->
+    readable B blen parse st sel fuel i = Some true.
+Proof. exact correct_readable. Qed.
+Print Assumptions correct_implies_complete.
+
 (* With a collision-free hash, "hashes to its id" is "is the content stored under that id". *)
 Theorem hash_fixes_content :
   forall (B : Type) (hash : B -> id),
